@@ -62,7 +62,7 @@ var alphabet = func() []step {
 	for _, b := range []string{"success", "silence", "late", "just-in-time", "unreachable", "stray-first", "send-fails"} {
 		a = append(a, step{"udp", b, "GetCards"})
 	}
-	for _, b := range []string{"success", "silence", "late", "just-in-time", "flood-then-valid", "flood-only", "send-fails"} {
+	for _, b := range []string{"success", "silence", "late", "just-in-time", "flood-then-valid", "flood-only", "send-fails", "success-other-port", "success-other-host"} {
 		a = append(a, step{"broadcast", b, "GetCards"})
 	}
 	for _, b := range []string{"success", "stall", "refused", "reset", "eof", "blackhole", "late", "just-in-time", "send-fails", "slow-accept-stall", "slow-accept-success"} {
@@ -94,7 +94,9 @@ func expect(s step) (time.Duration, bool) {
 		return 3 * T / 4, true
 	case "slow-accept-stall": // connected after 0.5 T, then nothing: the timeout runs from the start of the call
 		return T, false
-	case "success":
+	case "success", "success-other-port", "success-other-host":
+		// (other-port / other-host: the reply reaches the client from another source address than the one
+		// the request went to - a port-translating NAT, a relay; what counts is the serial number it carries)
 		return T / 4, true
 	case "just-in-time", "flood-then-valid":
 		return T - eps, true
@@ -145,6 +147,10 @@ func newWorld() *world {
 			switch w.cur.behaviour {
 			case "success", "slow-accept-success":
 				return []farm.Reply{{Delay: T / 4, Data: valid}}
+			case "success-other-port":
+				return []farm.Reply{{Delay: T / 4, Data: valid, Src: "192.168.1.102:54544"}}
+			case "success-other-host":
+				return []farm.Reply{{Delay: T / 4, Data: valid, Src: "155.138.158.102:54544"}}
 			case "late":
 				return []farm.Reply{{Delay: T + eps, Data: valid}}
 			case "just-in-time":
